@@ -589,7 +589,7 @@ def run(tier):
         for n in range(1, tg[t] + 1):
             _LANG[(t, n)] = T.lang(t, n)
 
-    ok_audit, n_audit = audit_collapse(3 if tier == "quick" else 5)
+    ok_audit, n_audit = audit_collapse(5)
     if not ok_audit:
         R.fail("model-audit:collapse", {"what": "ten levels vs collapsed"},
                "the collapsed binary level does not generate the ten-level language")
@@ -614,11 +614,15 @@ def run(tier):
 
     total = accepted = 0
     per_target = {}
+    per_frame = {}
     rejected = []
     for task, (cnt, ok, rej) in zip(tasks, core.pmap(_work_sentences, tasks, chunksize=4)):
         total += cnt
         accepted += ok
         d = per_target.setdefault(task[0], [0, 0])
+        d[0] += cnt
+        d[1] += ok
+        d = per_frame.setdefault(f"{task[0]}/{FRAMES[task[0]][task[2]][0]}", [0, 0])
         d[0] += cnt
         d[1] += ok
         rejected.extend(rej)
@@ -681,7 +685,7 @@ def run(tier):
     R.set("texts_framed", n_plain)
     R.set("texts_substituted", sub_total)
     R.set("texts_per_target_[run,accepted]", per_target)
-    R.set("frames", {t: [f[0] for f in FRAMES[t]] for t in TARGETS})
+    R.set("texts_per_frame_[run,accepted]", per_frame)
     R.set("frames_total", sum(len(v) for v in FRAMES.values()))
     R.set("rejected", len(rejected))
     R.set("rejected_distinct_texts_sent_to_gcc", len(utexts))
@@ -703,20 +707,28 @@ def run(tier):
         "gcc -std=c11 -fsyntax-only is the arbiter of a rejected text being syntactically valid",
     ]
     # vacuity guards
-    if sentences < 20000 or accepted < 0.9 * total or len(reached) < 60 or n_audit < 10:
+    floor = 100000 if tier == "quick" else 1000000
+    dead = sorted(k for k, (n_run, n_ok) in per_frame.items() if n_ok == 0)
+    nframes = sum(len(v) for v in FRAMES.values())
+    if (sentences < floor or accepted < 0.9 * total or len(reached) < 60 or n_audit < 100
+            or sub_total < sentences // 10 or len(per_frame) != nframes or dead):
         R.fail("vacuous", {"sentences": sentences, "accepted": accepted, "total": total,
-                           "reached": len(reached)}, "too little explored or almost nothing accepted")
+                           "reached": len(reached), "substituted": sub_total, "dead_frames": dead},
+               "too little explored, almost nothing accepted, or a frame in which nothing is accepted")
     samples = [_render(X, FRAMES[X][-1], _LANG[(X, tg[X])][len(_LANG[(X, tg[X])]) // 3])[0]
                for X in TARGETS]
     return R.finish(
         samples,
-        "every sentence <= N tokens of each listed nonterminal of the restricted C99+C11 "
-        "grammar (class representatives) in every frame, every single-position vocabulary "
-        "substitution of the sentences <= N_substitution in the primary frame; each text is "
-        "parsed by CParser.parse and must be accepted. states = filled DP cells (X, n), "
-        "transitions = production instances combined, traces = texts parsed. non-trivial = "
-        "accepted texts (the whole text went through the productions; productions_reached "
-        "lists the _parse_* methods entered)",
+        "every sentence <= N tokens of each of the 17 nonterminals of the restricted C99+C11 "
+        "grammar (class representatives) in every (prefix, suffix) frame of that nonterminal; "
+        "every single-position vocabulary substitution (other members of the terminal class; "
+        "every 6.7.2p2 keyword multiset of the same size in every order) of the sentences <= "
+        "N_substitution in the primary frame and of the fixed longer sentences; each text is "
+        "parsed by CParser.parse and must be accepted; a rejected text counts unless gcc "
+        "-std=c11 -fsyntax-only reports a syntax diagnostic for it (model_doubts). states = "
+        "filled DP cells (X, n), transitions = production instances combined, traces = texts "
+        "parsed. non-trivial = accepted texts (the whole text went through the parser's "
+        "productions; productions_reached lists the _parse_* methods entered on a spread of them)",
     )
 
 
